@@ -59,7 +59,9 @@ def value_to_json(value: object) -> object:
         try:
             value.encode("utf-8")
         except UnicodeEncodeError:
-            return {"string": repr(value)}
+            # ascii() so that the result does not depend on which characters the
+            # running Python version considers printable
+            return {"string": ascii(value)}
         return value
     if value == ...:
         return {"type": "ellipsis"}
